@@ -9547,3 +9547,324 @@ func ruleKeyIdentityComplete(c *Ctx) {
 		c.Fail("key-identity-complete", c.P.Pos(eq.Decl.Pos()), fmt.Sprintf("keys.PublicKey.Equal (through Cmp) never reads %s: two different keys - the point and its mirror image, private keys d and n-d - compare equal, so a signer that allows group K is witnessed inside a contract whose manifest lists only the mirrored key, a Deny Group(K) rule hits the wrong contracts, and a manifest listing both is refused as a duplicate", strings.Join(missing, ", ")))
 	}
 }
+
+// ruleBatchFullAgreement (C02): whether a batch of the token transfer log is full is decided where the log is written
+// (appendTokenTransfer: `log.Size() >= TokenTransferBatchSize`) and the answer goes into the account's transfer info
+// (which batch is next, its newest timestamp). The state reset rebuilds that info from the batches it keeps and asks
+// the same question; answered with another operator, an account that keeps a complete batch gets "next batch 0", the
+// next transfer is appended to the full batch and later ones open a second batch beside it: the logs of the node that
+// was reset differ from those of a node that only ever reached that height. Every call of appendTokenTransferInfo
+// passes a comparison with state.TokenTransferBatchSize that has, normalised to `size OP limit`, the writer's operator.
+func ruleBatchFullAgreement(c *Ctx) {
+	pk := c.P.Pkg("pkg/core")
+	if pk == nil {
+		return
+	}
+	info := pk.TypesInfo
+	flip := map[token.Token]token.Token{token.LSS: token.GTR, token.GTR: token.LSS, token.LEQ: token.GEQ, token.GEQ: token.LEQ, token.EQL: token.EQL, token.NEQ: token.NEQ}
+	type site struct {
+		fn     string
+		op     token.Token
+		pos    token.Pos
+		writer bool
+	}
+	var sites []site
+	for _, fd := range c.P.AllFuncDecls() {
+		if fd.Pkg != pk || fd.Decl.Body == nil {
+			continue
+		}
+		f := c.P.NewFuncCFG(fd)
+		// call sites inside function literals count (the reset walks the logs in a Seek callback)
+		type csite struct{ call *ast.CallExpr }
+		var calls []csite
+		hasPut, hasAppend := false, false
+		ast.Inspect(fd.Decl.Body, func(x ast.Node) bool {
+			if call, ok := x.(*ast.CallExpr); ok {
+				if fn := calleeFunc(info, call); fn != nil {
+					switch FuncKey(fn) {
+					case "pkg/core.appendTokenTransferInfo":
+						calls = append(calls, csite{call})
+					case "pkg/core/dao.(*Simple).PutTokenTransferLog":
+						hasPut = true
+					case "pkg/core/state.(*TokenTransferLog).Append":
+						hasAppend = true
+					}
+				}
+			}
+			return true
+		})
+		for _, s := range calls {
+			if len(s.call.Args) == 0 {
+				continue
+			}
+			arg := ast.Unparen(s.call.Args[len(s.call.Args)-1])
+			if id, ok := arg.(*ast.Ident); ok {
+				if v, ok := info.ObjectOf(id).(*types.Var); ok && len(f.defs[v]) == 1 && len(f.defs[v][0].rhs) == 1 {
+					arg = ast.Unparen(f.defs[v][0].rhs[0])
+				}
+			}
+			be, ok := arg.(*ast.BinaryExpr)
+			if !ok {
+				c.Unclassified("batch-full."+shortSym(FuncKey(fd.Obj)), c.P.Pos(s.call.Pos()), "the `new batch` argument is not a comparison")
+				continue
+			}
+			isLimit := func(e ast.Expr) bool {
+				hit := false
+				ast.Inspect(e, func(x ast.Node) bool {
+					if id, ok := x.(*ast.Ident); ok && id.Name == "TokenTransferBatchSize" {
+						if _, ok := info.ObjectOf(id).(*types.Const); ok {
+							hit = true
+						}
+					}
+					return true
+				})
+				return hit
+			}
+			op, ok := be.Op, true
+			switch {
+			case isLimit(be.Y) && !isLimit(be.X):
+			case isLimit(be.X) && !isLimit(be.Y):
+				op, ok = flip[op]
+			default:
+				ok = false
+			}
+			if !ok {
+				c.Unclassified("batch-full."+shortSym(FuncKey(fd.Obj)), c.P.Pos(s.call.Pos()), "the `new batch` argument does not compare with TokenTransferBatchSize")
+				continue
+			}
+			sites = append(sites, site{FuncKey(fd.Obj), op, s.call.Pos(), hasPut && hasAppend})
+		}
+	}
+	ref := token.ILLEGAL
+	for _, s := range sites {
+		if s.writer {
+			ref = s.op
+		}
+	}
+	if ref == token.ILLEGAL {
+		c.Lost("batch-full.writer", "the function that appends to the transfer log and decides that a batch is full was not found")
+		return
+	}
+	n := 0
+	for _, s := range sites {
+		if s.writer {
+			continue
+		}
+		n++
+		key := "batch-full." + shortSym(s.fn)
+		if s.op == ref {
+			c.OK(key, c.P.Pos(s.pos), fmt.Sprintf("a batch is full at `size %s TokenTransferBatchSize`, as where the log is written", s.op))
+		} else {
+			c.Fail(key, c.P.Pos(s.pos), fmt.Sprintf("%s takes a batch of the transfer log for full at `size %s TokenTransferBatchSize`, the writer of the log at `size %s TokenTransferBatchSize`: the transfer info it rebuilds says another 'next batch' than the log has, the next transfer is appended to a batch that is already full and later ones open a second batch beside it - the transfer history of the node that was reset differs from that of a node which only ever reached the height", s.fn, s.op, ref))
+		}
+	}
+	c.Floor("rebuilders of the transfer info", n, 1)
+}
+
+// ruleMagnitudeBound (C17): JSON numbers are exact up to a magnitude; the encoder of stack items refuses integers
+// beyond it (MaxAllowedInteger) and the decoder reads numbers with a fixed precision. The bound is on the magnitude:
+// the comparison goes through CmpAbs (a signed comparison lets every negative number through, and a large one comes
+// back as another value). Every comparison of a *big.Int with stackitem.MaxAllowedInteger is a CmpAbs call.
+func ruleMagnitudeBound(c *Ctx) {
+	pk := c.P.Pkg("pkg/vm/stackitem")
+	if pk == nil {
+		return
+	}
+	info := pk.TypesInfo
+	n := 0
+	for _, fd := range c.P.AllFuncDecls() {
+		if fd.Pkg != pk || fd.Decl.Body == nil {
+			continue
+		}
+		k := 0
+		ast.Inspect(fd.Decl.Body, func(x ast.Node) bool {
+			call, ok := x.(*ast.CallExpr)
+			if !ok {
+				return true
+			}
+			se, ok := ast.Unparen(call.Fun).(*ast.SelectorExpr)
+			if !ok || (se.Sel.Name != "Cmp" && se.Sel.Name != "CmpAbs") || len(call.Args) != 1 {
+				return true
+			}
+			mentions := false
+			ast.Inspect(call.Args[0], func(y ast.Node) bool {
+				if id, ok := y.(*ast.Ident); ok && id.Name == "MaxAllowedInteger" {
+					if _, ok := info.ObjectOf(id).(*types.Const); ok {
+						mentions = true
+					}
+				}
+				return true
+			})
+			if !mentions {
+				return true
+			}
+			n++
+			k++
+			key := fmt.Sprintf("magnitude-bound.%s#%d", shortSym(FuncKey(fd.Obj)), k)
+			if se.Sel.Name == "CmpAbs" {
+				c.OK(key, c.P.Pos(call.Pos()), "the magnitude is compared")
+			} else {
+				c.Fail(key, c.P.Pos(call.Pos()), fmt.Sprintf("%s compares an integer with MaxAllowedInteger by its signed value: every negative integer passes, and one whose magnitude exceeds what a JSON number holds exactly is written out and read back as another value (-36028797018963965 comes back as -36028797018963968) where the reference refuses to serialise it", FuncKey(fd.Obj)))
+			}
+			return true
+		})
+	}
+	c.Floor("comparisons with MaxAllowedInteger", n, 1)
+	// and the bound fits the precision the decoder reads numbers with: MaxAllowedInteger < 2^CompatIntegerPrec
+	lim, _ := pk.Types.Scope().Lookup("MaxAllowedInteger").(*types.Const)
+	prec, _ := pk.Types.Scope().Lookup("CompatIntegerPrec").(*types.Const)
+	if lim == nil || prec == nil {
+		c.Lost("magnitude-bound.consts", "stackitem.MaxAllowedInteger / CompatIntegerPrec not found")
+		return
+	}
+	lv, ok1 := constant.Int64Val(constant.ToInt(lim.Val()))
+	pv, ok2 := constant.Int64Val(constant.ToInt(prec.Val()))
+	if !ok1 || !ok2 || pv <= 0 || pv > 62 {
+		c.Unclassified("magnitude-bound.fits-precision", c.P.Pos(lim.Pos()), "constants of an unexpected kind")
+		return
+	}
+	if lv < int64(1)<<uint(pv) {
+		c.OK("magnitude-bound.fits-precision", c.P.Pos(lim.Pos()), fmt.Sprintf("every integer the encoder writes (|x| <= %d) fits the %d bits of precision the decoder reads a number with", lv, pv))
+	} else {
+		c.Fail("magnitude-bound.fits-precision", c.P.Pos(lim.Pos()), fmt.Sprintf("stackitem.MaxAllowedInteger is %d (2<<53 - 1, i.e. 2^54-1), but the decoder reads a JSON number with CompatIntegerPrec = %d bits of mantissa: integers with a magnitude in [2^%d, %d] are written by ToJSON / StdLib.jsonSerialize and come back rounded (9007199254740993 -> 9007199254740992) - the JSON form of such an item does not round-trip, and the reference refuses to serialise anything beyond 2^53-1", lv, pv, pv, lv))
+	}
+}
+
+// ruleRecoveryNormalisation (C19): a recovery message carries either the PrepareRequest or the hash of it; the service
+// completes the message (derives the hash from the embedded request) before it hands it to dBFT, which asks for the
+// PrepareResponses with that hash even when it already has the request. What the message is completed with is a
+// function of the message: the conditions under which a field of the received recovery message is assigned in the
+// event loop mention the message, never the state of the dBFT context (a node that already holds the request would
+// otherwise never get a response out of a recovery message - the state that only recovery messages can resolve).
+func ruleRecoveryNormalisation(c *Ctx) {
+	fd := c.P.Func("pkg/consensus", "service", "eventLoop")
+	if fd == nil {
+		c.Lost("recovery-normalisation.anchor", "service.eventLoop not found")
+		return
+	}
+	info := fd.Pkg.TypesInfo
+	n := 0
+	var stack []ast.Node
+	ast.Inspect(fd.Decl.Body, func(x ast.Node) bool {
+		if x == nil {
+			stack = stack[:len(stack)-1]
+			return true
+		}
+		stack = append(stack, x)
+		as, ok := x.(*ast.AssignStmt)
+		if !ok {
+			return true
+		}
+		for _, l := range as.Lhs {
+			se, ok := ast.Unparen(l).(*ast.SelectorExpr)
+			if !ok {
+				continue
+			}
+			if !namedTypeIs(info.TypeOf(se.X), "pkg/consensus", "recoveryMessage") {
+				continue
+			}
+			n++
+			key := fmt.Sprintf("recovery-normalisation.%s#%d", se.Sel.Name, n)
+			bad := ""
+			for i := len(stack) - 2; i >= 0; i-- {
+				if _, ok := stack[i].(*ast.CaseClause); ok {
+					break
+				}
+				is, ok := stack[i].(*ast.IfStmt)
+				if !ok {
+					continue
+				}
+				ast.Inspect(is.Cond, func(y ast.Node) bool {
+					if s2, ok := y.(*ast.SelectorExpr); ok && s2.Sel.Name == "dbft" {
+						bad = types.ExprString(is.Cond)
+					}
+					return true
+				})
+			}
+			if bad == "" {
+				c.OK(key, c.P.Pos(as.Pos()), "the received recovery message is completed from its own content")
+			} else {
+				c.Fail(key, c.P.Pos(as.Pos()), fmt.Sprintf("the event loop completes a received recovery message (%s) only under `%s`, a test of the dBFT context's own state: a node that already has the PrepareRequest gets no preparation hash, GetPrepareResponses returns nothing without it, and the state in which some validators have committed and the others lack one response - which only recovery messages can resolve - lasts for ever", types.ExprString(l), bad))
+			}
+		}
+		return true
+	})
+	c.Floor("fields of a received recovery message completed by the event loop", n, 1)
+}
+
+// ruleCtorParamsUsed (C19, C17): dBFT builds its messages through constructors the service supplies (WithNew...); what
+// dBFT passes in is what the message has to carry or remember. A parameter the constructor never mentions is
+// information dropped on the floor: the node's own ChangeView without the view it asks for is never counted by
+// checkChangeView and never makes ViewChanging() true - the node goes on committing in the old view while it asks
+// for a new one, and with the other half of the validators the other way round nothing moves any more. Every named
+// parameter of a function given to a dbft.WithNew* option is mentioned in its body.
+func ruleCtorParamsUsed(c *Ctx) {
+	pk := c.P.Pkg("pkg/consensus")
+	if pk == nil {
+		return
+	}
+	info := pk.TypesInfo
+	n := 0
+	for _, f := range pk.Syntax {
+		ast.Inspect(f, func(x ast.Node) bool {
+			call, ok := x.(*ast.CallExpr)
+			if !ok || len(call.Args) != 1 {
+				return true
+			}
+			fun := ast.Unparen(call.Fun)
+			switch ix := fun.(type) {
+			case *ast.IndexExpr:
+				fun = ix.X
+			case *ast.IndexListExpr:
+				fun = ix.X
+			}
+			se, ok := ast.Unparen(fun).(*ast.SelectorExpr)
+			if !ok {
+				return true
+			}
+			opt, ok := info.ObjectOf(se.Sel).(*types.Func)
+			if !ok || opt.Pkg() == nil || !strings.HasSuffix(opt.Pkg().Path(), "nspcc-dev/dbft") || !strings.HasPrefix(opt.Name(), "WithNew") {
+				return true
+			}
+			var fn *types.Func
+			switch a := ast.Unparen(call.Args[0]).(type) {
+			case *ast.SelectorExpr:
+				fn, _ = info.ObjectOf(a.Sel).(*types.Func)
+			case *ast.Ident:
+				fn, _ = info.ObjectOf(a).(*types.Func)
+			}
+			if fn == nil {
+				return true
+			}
+			fd := c.P.DeclOf(fn)
+			if fd == nil || fd.Decl.Body == nil || fd.Decl.Type.Params == nil {
+				return true
+			}
+			finfo := fd.Pkg.TypesInfo
+			for _, fl := range fd.Decl.Type.Params.List {
+				for _, nm := range fl.Names {
+					if nm.Name == "_" {
+						continue
+					}
+					n++
+					obj := finfo.ObjectOf(nm)
+					used := false
+					ast.Inspect(fd.Decl.Body, func(y ast.Node) bool {
+						if id, ok := y.(*ast.Ident); ok && finfo.ObjectOf(id) == obj {
+							used = true
+						}
+						return !used
+					})
+					key := fmt.Sprintf("%s.%s", shortSym(FuncKey(fn)), nm.Name)
+					if used {
+						c.OK(key, c.P.Pos(nm.Pos()), "what dBFT passes in reaches the message")
+					} else {
+						c.Fail(key, c.P.Pos(nm.Pos()), fmt.Sprintf("%s, the constructor the service gives dBFT through %s, never mentions its parameter %s: the message it builds does not carry (or remember) what dBFT asked it to. For the ChangeView that is the view the node asks for - it is not on the wire, dBFT reads it from the node's own stored message: without it the node's own ChangeView is never counted and the node keeps accepting preparations of the view it wants to leave", FuncKey(fn), opt.Name(), nm.Name))
+					}
+				}
+			}
+			return true
+		})
+	}
+	c.Floor("parameters of the message constructors given to dBFT", n, 8)
+}
